@@ -140,15 +140,13 @@ class ConcentrationAnalysis:
 
         """
         if base is not None:
-            self.base = base.copy()
             # Make sure that the image is converted to float for substraction
-            if any(
-                [img.img.dtype not in [float, np.float32, np.float64] for img in base]
-            ):
-                base = [img.img_as(float) for img in base]
+            if base.img.dtype not in [float, np.float32, np.float64]:
+                base = base.img_as(float)
                 warn(
                     "The baseline image needed to be converted to float for substraction."
                 )
+            self.base = base.copy()
         if mask is not None:
             self.mask = mask
 
